@@ -2,6 +2,7 @@ package interpreter
 
 import (
 	. "github.com/glyphlang/glyph/pkg/ast"
+	"sort"
 
 	"fmt"
 	"strings"
@@ -432,8 +433,15 @@ func (i *Interpreter) executeFor(stmt ForStatement, env *Environment) (interface
 			}
 		}
 	} else if obj, ok := iterable.(map[string]interface{}); ok {
-		// Iterate over object/map
-		for key, value := range obj {
+		// Iterate over object/map in ascending key order: Go's map order is
+		// random, which made the result of a loop depend on the run.
+		keys := make([]string, 0, len(obj))
+		for key := range obj {
+			keys = append(keys, key)
+		}
+		sort.Strings(keys)
+		for _, key := range keys {
+			value := obj[key]
 			// Create a fresh environment for each iteration
 			loopEnv := NewChildEnvironment(env)
 
